@@ -182,7 +182,7 @@ class Check:
                     g.write('%d\n' % (val - (1 << 32) if val >= (1 << 31) else val))
                 else:
                     f.write('%s\n' % v['value'])
-        env = dict(os.environ, VF_REPLAY=vals, VF_SCHEDULE=schedf, ASAN_OPTIONS='detect_leaks=1:abort_on_error=0:exitcode=42', UBSAN_OPTIONS='print_stacktrace=1')
+        env = dict(os.environ, VF_REPLAY=vals, VF_SCHEDULE=schedf, ASAN_OPTIONS='detect_leaks=1:abort_on_error=0:exitcode=42:detect_stack_use_after_return=1', UBSAN_OPTIONS='print_stacktrace=1')
         try:
             r = subprocess.run([exe], capture_output=True, text=True, timeout=timeout, env=env)
         except subprocess.TimeoutExpired:
